@@ -106,10 +106,15 @@ def _leaves(res, nm):
     return [X.to_numpy(r) for r in res]
 
 
+def _supported(kind, meas):
+    singles, _ = SUPPORT[kind]
+    return all(m in singles for m in meas)
+
+
 def check(spec):
     import pennylane as qp
 
-    kind, letters, meas, lab, dw = spec["dev"], spec["word"], spec["meas"], spec["lab"], spec["dw"]
+    kinds, letters, meas, lab, dw = spec["devs"], spec["word"], spec["meas"], spec["lab"], spec["dw"]
     used = {w for l in letters for w in l[1]}
     n = 4 if 3 in used else 3
     dwp = list(dw) + ([3] if n == 4 else [])
@@ -121,69 +126,84 @@ def check(spec):
     def tape():
         return qp.tape.QuantumScript([build(l, lab) for l in letters], [X.build_meas(m, lab) for m in meas])
 
+    bt = "" if B is None else f":batch{B}"
+    gates = "+".join(sorted({l[0] for l in letters}))
     with warnings.catch_warnings():
         warnings.simplefilter("ignore")
         ref = _leaves(qp.execute([tape()], make_device("dq", wires), diff_method=None)[0], len(meas))
-        got = qp.execute([tape()], make_device(kind, wires), diff_method=None)[0]
-    if len(meas) > 1 and (not isinstance(got, (tuple, list)) or len(got) != len(meas)):
-        return bad(f"nesting:{kind}", type(got).__name__, f"tuple of {len(meas)}")
-    got = _leaves(got, len(meas))
-    bt = "" if B is None else f":batch{B}"
-    for m, g, e in zip(meas, got, ref):
-        mk = m[0] + (":" + m[1][0] if m[0] in ("expval", "var") else "")
-        if kind == "mixed" and m[0] == "state":
-            e = np.einsum("...i,...j->...ij", e, np.conj(e))
-        if kind == "null":
-            if g.shape != e.shape:
-                return bad(f"null-shape:{mk}{bt}", g.shape, e.shape)
-            if (g.dtype.kind == "c") != (e.dtype.kind == "c"):
-                return bad(f"null-dtype:{mk}{bt}", str(g.dtype), str(e.dtype))
-            continue
-        if g.shape != e.shape:
-            return bad(f"shape:{kind}:{mk}{bt}", g.shape, e.shape)
-        d = float(np.max(np.abs(g - e))) if g.size else 0.0
-        if not d <= ATOL:
-            gates = "+".join(sorted({l[0] for l in letters}))
-            return bad(f"disagree:{kind}:{mk}{bt}:{gates}", {"got": g, "maxdiff": d}, e)
-    zero = np.zeros(2 ** n)
-    zero[0] = 1
-    return ok(outcome=[kind, X.fingerprint(ref), B], nontrivial=bool(letters))
+        for kind in kinds:
+            try:
+                got = qp.execute([tape()], make_device(kind, wires), diff_method=None)[0]
+            except (ImportError, MemoryError, OSError):
+                raise
+            except Exception as e:  # pylint: disable=broad-except
+                return bad(f"raised:{kind}:{'+'.join(m[0] for m in meas)}{bt}:{type(e).__name__}", f"{type(e).__name__}: {str(e)[:300]}",
+                           "same results as default.qubit", gates=gates)
+            if len(meas) > 1 and (not isinstance(got, (tuple, list)) or len(got) != len(meas)):
+                return bad(f"nesting:{kind}", type(got).__name__, f"tuple of {len(meas)}")
+            got = _leaves(got, len(meas))
+            for m, g, e in zip(meas, got, ref):
+                mk = m[0] + (":" + m[1][0] if m[0] in ("expval", "var") else "")
+                if kind == "mixed" and m[0] == "state":
+                    e = np.einsum("...i,...j->...ij", e, np.conj(e))
+                if kind == "null":
+                    if g.shape != e.shape:
+                        return bad(f"null-shape:{mk}{bt}", g.shape, e.shape)
+                    if (g.dtype.kind == "c") != (e.dtype.kind == "c"):
+                        return bad(f"null-dtype:{mk}{bt}", str(g.dtype), str(e.dtype))
+                    continue
+                if g.shape != e.shape:
+                    return bad(f"shape:{kind}:{mk}{bt}", g.shape, e.shape)
+                d = float(np.max(np.abs(g - e))) if g.size else 0.0
+                if not d <= ATOL:
+                    return bad(f"disagree:{kind}:{mk}{bt}:{gates}", {"got": g, "maxdiff": d}, e)
+    return ok(outcome=[kinds, X.fingerprint(ref), B], nontrivial=bool(letters))
 
 
 def run(ctx):
     quick = ctx.quick
     L = 2 if quick else 3
     specs = []
-    per_dev = {}
-    for kind in DEVICES:
-        if ctx.only and ctx.only != kind:
-            continue
-        base = CLIFFORD if kind == "cliff" else COMMON
-        if kind == "cliff":
-            base = [l for l in base]
-        alpha = base + EXTRA[kind]
-        singles, pairsub = SUPPORT[kind]
-        lists = [[m] for m in singles] + [[a, b] for a in pairsub for b in pairsub]
-        ws = []
-        for w in words(base, L):
-            ws.append(w)
-        for w in words(alpha, 2):  # words containing a device-specific extra letter
-            if any(l in EXTRA[kind] for l in w):
-                ws.append(w)
-        n0 = len(specs)
+    count = {}
+
+    def add(w, lab, dw, ml, pool):
+        devs = [k for k in pool if _supported(k, ml) and all((l in COMMON or l in CLIFFORD or l in EXTRA[k]) for l in w)]
+        if ctx.only:
+            devs = [k for k in devs if k == ctx.only]
+        if devs:
+            specs.append({"devs": devs, "word": w, "lab": lab, "dw": dw, "meas": ml})
+            for k in devs:
+                count[k] = count.get(k, 0) + 1
+
+    allm = SUPPORT["mixed"][0]
+    singles = [[m] for m in allm]
+    pair_pool = [E_P[2], V_P[0], PR[1], ST[0], EN[3], E_H[0]]
+    pairs = [[a, b] for a in pair_pool for b in pair_pool]
+    extras = []
+    for k in ("mixed", "ref", "mps", "null"):
+        for l in EXTRA[k]:
+            if l not in extras:
+                extras.append(l)
+    for alpha, pool in ((COMMON, ["mixed", "ref", "mps", "tn", "null"]), (CLIFFORD, ["cliff", "mixed", "null"])):
+        ws = list(words(alpha, L))
+        if alpha is COMMON:
+            ws += [w for w in words(COMMON + extras, 2) if any(l in extras for l in w)]
         for w in ws:
-            labs = LABS if len(w) <= 1 else [LABS[0], LABS[3]]
-            for lab in labs:
-                for dw in (DEVW if len(w) <= 2 else DEVW[1:]):
-                    for ml in lists:
-                        if len(w) == 3 and len(ml) == 2 and lab != LABS[3]:
-                            continue
-                        specs.append({"dev": kind, "word": w, "lab": lab, "dw": dw, "meas": ml})
-        per_dev[kind] = len(specs) - n0
-    ctx.enumerate(specs, axis="device-x-word-x-labels-x-measurements", chunk=32)
+            if len(w) <= 1:
+                combos = [(lab, dw) for lab in LABS for dw in DEVW]
+            elif len(w) == 2:
+                combos = [(LABS[3], dw) for dw in DEVW] + ([] if quick else [(LABS[0], DEVW[0])])
+            else:
+                combos = [(LABS[3], DEVW[1])]
+            for lab, dw in combos:
+                for ml in singles:
+                    add(w, lab, dw, ml, pool)
+            for ml in pairs:
+                add(w, LABS[3], DEVW[1], ml, pool)
+    ctx.enumerate(specs, axis="word-x-labels-x-device-wires-x-measurements", chunk=16)
     ctx.coverage["alphabet"] = {"common": [X.letter_code(l) for l in COMMON], "clifford": [X.letter_code(l) for l in CLIFFORD],
                                 "device_specific": {k: [X.letter_code(l) for l in v] for k, v in EXTRA.items()},
                                 "measurement_letters": {k: len(v[0]) for k, v in SUPPORT.items()}, "labels": LABS,
                                 "device_wire_orders": DEVW}
     ctx.coverage["bound"] = {"word_len": L, "meas_list_len": 2, "wires": 3}
-    ctx.coverage["cases_per_device"] = per_dev
+    ctx.coverage["comparisons_per_device"] = count
